@@ -103,7 +103,8 @@ class Ctx:
             import hashlib
             h = hashlib.sha1(("%d/%s/%s" % (os.getpid(), self.tag, self.wid)).encode()).hexdigest()[:10]
             root = "/dev/shm/lesim-%s-%s" % (h, fl[:4])
-            env = {"TSAN_OPTIONS": "external_symbolizer_path=/usr/bin/llvm-symbolizer-14", "ASAN_SYMBOLIZER_PATH": "/usr/bin/llvm-symbolizer-14"}
+            env = {"TSAN_OPTIONS": "external_symbolizer_path=/usr/bin/llvm-symbolizer-14", "ASAN_SYMBOLIZER_PATH": "/usr/bin/llvm-symbolizer-14",
+                   "LOCPATH": os.path.join(SIM, "locale")}
             real = fl
             if fl == "asq0":
                 # the ASan build without quarantine: freed blocks are handed out again at once, so that defects which need
